@@ -60,6 +60,7 @@ enum Tpl {
     T_E_DESTROY_TWICE,
     T_E_SUPER_CALL,
     T_E_DTOR_ERR,       // runtime error inside a user destructor (known finding D13) - only when enabled
+    T_QCYCLE,           // garbage cycle whose nodes own an object with a qubit and an echoing destructor (known finding D19) - only when enabled
     T_COUNT
 };
 
@@ -68,7 +69,7 @@ inline const char* tplName(int t) {
                               "static_assign", "loop_alloc", "destroy", "cycle_drop", "virtual", "box", "ret_while_dtor", "churn", "churn_d",
                               "self_cycle_live", "show_all", "static_cycle", "drop_var", "keep_chain", "diamond_generic", "method_churn",
                               "e_div0", "e_mod0", "e_longmin_mod", "e_index", "e_null_field", "e_null_call", "e_deep", "e_voverload", "e_ctor_err",
-                              "e_fieldinit_err", "e_int_extreme", "e_literal_range", "e_cast", "e_neg_array", "e_destroy_twice", "e_super_call", "e_dtor_err"};
+                              "e_fieldinit_err", "e_int_extreme", "e_literal_range", "e_cast", "e_neg_array", "e_destroy_twice", "e_super_call", "e_dtor_err", "qubit_owner_in_garbage_cycle"};
     return (t >= 0 && t < T_COUNT) ? n[t] : "?";
 }
 
@@ -77,6 +78,7 @@ struct Plan {
     int nVars = 3;
     bool edge = false;       // include edge-case classes in the preamble
     bool dtorErr = false;    // allow T_E_DTOR_ERR
+    bool qcycle = false;     // allow T_QCYCLE (classes QP/QL in the preamble)
 };
 
 inline std::string preamble(const Plan& p) {
@@ -138,6 +140,11 @@ inline std::string preamble(const Plan& p) {
         "function wrap1(int id, int k) -> N { N r = mk(id); int c = F.churn(k); return r; }\n"
         "function wrap2(int id, int k) -> N { return wrap1(id, k); }\n"
         "function retWhileDtor(int id, int k) -> N { N keep = mk(id); D d = new D(k); return keep; }\n";
+    if (p.qcycle)
+        s +=
+            "class QP { public qubit q; public int id; public constructor(int id) -> QP { this.id = id; return this; } public destructor() -> void { echo(\"~QP \" + this.id); } }\n"
+            "class QL { public QL next; public QP p; public constructor(int id) -> QL { this.next = null; this.p = new QP(id); return this; } }\n"
+            "function qcyc(int id) -> void { QL a = new QL(id); QL b = new QL(id + 1); a.next = b; b.next = a; }\n";
     if (p.edge) {
         s +=
             "class H0 { public int z; public constructor() -> H0 { this.z = 0; return this; } public virtual function lvl() -> int { return 0; } }\n"
@@ -257,6 +264,7 @@ inline std::string renderStmt(const Plan& p, const Stmt& st, int index) {
         case T_E_NEG_ARRAY: return "    final int an" + I(index) + " = " + I((st.a % 3)) + ";\n    int[an" + I(index) + "] arr" + I(index) + ";\n    echo(arr" + I(index) + ");\n";
         case T_E_DESTROY_TWICE: return "    N dt" + I(index) + " = mk(" + I(id) + ");\n    destroy dt" + I(index) + ";\n    destroy dt" + I(index) + ";\n    N dn" + I(index) + " = null;\n    destroy dn" + I(index) + ";\n";
         case T_E_SUPER_CALL: return "    M sm" + I(index) + " = new M(" + I(id) + ");\n    echo(sm" + I(index) + ".baseTag());\n    echo(sm" + I(index) + ".tag());\n";
+        case T_QCYCLE: return "    qcyc(" + I(id) + ");\n    echo(\"after qcyc\");\n";
         case T_E_DTOR_ERR: return "    BadDtor bdt" + I(index) + " = new BadDtor();\n    destroy bdt" + I(index) + ";\n    echo(\"after dtor err\");\n";
     }
     return "";
@@ -277,7 +285,7 @@ inline sim::Json toJson(const Plan& p) {
     sim::Json j = sim::Json::object();
     sim::Json m = sim::Json::array();
     for (auto& st : p.main) m.push(sim::Json::object().set("tpl", tplName(st.tpl)).set("t", st.tpl).set("a", st.a).set("b", st.b).set("c", st.c));
-    j.set("main", m).set("nVars", p.nVars).set("edge", p.edge).set("dtorErr", p.dtorErr);
+    j.set("main", m).set("nVars", p.nVars).set("edge", p.edge).set("dtorErr", p.dtorErr).set("qcycle", p.qcycle);
     return j;
 }
 inline Plan fromJson(const sim::Json& j) {
@@ -285,14 +293,16 @@ inline Plan fromJson(const sim::Json& j) {
     p.nVars = (int)j.at("nVars").asInt(3);
     p.edge = j.at("edge").asBool();
     p.dtorErr = j.at("dtorErr").asBool();
+    p.qcycle = j.at("qcycle").asBool();
     for (auto& e : j.at("main").a) p.main.push_back({(int)e.at("t").asInt(), (int)e.at("a").asInt(), (int)e.at("b").asInt(), (int)e.at("c").asInt()});
     return p;
 }
 
 // Generation. `edgeShare` in [0,1]: share of edge templates (C12); errors end the program early, so at
 // most one erroring template is placed and it is placed late.
-inline Plan generate(sim::Rng& g, bool edge, bool allowDtorErr) {
+inline Plan generate(sim::Rng& g, bool edge, bool allowDtorErr, bool allowQcycle = false) {
     Plan p;
+    p.qcycle = allowQcycle;
     p.nVars = g.range(2, 4);
     p.edge = edge;
     p.dtorErr = allowDtorErr;
@@ -311,6 +321,14 @@ inline Plan generate(sim::Rng& g, bool edge, bool allowDtorErr) {
         st.b = (int)g.below(12);
         st.c = (int)g.below(12);
         p.main.push_back(st);
+    }
+    if (allowQcycle) {
+        int k = 1 + (int)g.below(2);
+        for (int i = 0; i < k; ++i) {
+            Stmt st;
+            st.tpl = T_QCYCLE;
+            p.main.insert(p.main.begin() + (long)g.below(p.main.size() + 1), st);
+        }
     }
     if (allowDtorErr && g.chance(0.5)) {
         Stmt st;
